@@ -46,6 +46,8 @@ extra = {
  "7": "Prefer boundary values (zero, negative and very large numbers; empty strings, lists and bodies; the first and the last element), rarely used public entry points and options of the clients and servers, HEAD next to GET, DELETE and MKCOL on the CalDAV/CardDAV servers, and small 'harmless' API conveniences (defaults filled in, values normalised, lenient parsing). ",
  "8": "Prefer HTTP-level details (response headers such as Allow, DAV, Content-Type, Content-Length, Location and ETag; request header parsing; the choice among 4xx codes), OPTIONS and the capability / support queries of the clients, properties of COLLECTIONS rather than objects (resourcetype, displayname, descriptions, supported sets, sizes), and changes that only affect the second and later items of a list, or only the last one. ",
  "9": "Prefer (1) 'defensive' validation, limits and normalisation that reject, truncate or rewrite LEGITIMATE inputs (lengths, counts, depths, character sets, letter case, duplicates, ordering), (2) state outside a function's arguments: reuse of buffers, slices, maps or package-level values between calls or between items of a list, aliasing between a caller's value and what the library keeps or returns, values captured by closures, dependence on map iteration order, (3) the less common of two encodings of the same thing (a header repeated on several lines, an XML namespace declared as default vs. prefixed, absolute-URI vs. path-only hrefs, percent-encoded vs. literal characters), and (4) behaviour that differs only when an optional value is EMPTY or ZERO. ",
+ "10": "Prefer (1) TWO COOPERATING SITES that each look fine alone: a helper whose contract shifts slightly (what it returns for an edge case, whether it normalises, whether its result aliases its argument) while one of its callers still relies on the old contract, or a producer and a consumer of the same value that stop agreeing; (2) FAULTS AT A PARTICULAR POINT: an I/O or backend error in the MIDDLE of a multi-step operation (after the first member of a listing, after a partial copy, after the status line was written, between reading the body and storing it), a cancelled context, an early EOF; (3) behaviour that depends on what an EARLIER request or call left behind; (4) the rarely exercised branches of the code: non-default ports or schemes, paths at the very root, names with unusual but legal bytes, the LAST of several alternatives in a switch, fallbacks when an optional struct field is nil. ",
+ "11": "IMPORTANT for this round: the change must NOT ADD code paths - no new if/else/switch/case/loop, no new helper function, no new index or slice expression, no new struct field or package-level variable. It must MODIFY what is already there: an operator or a comparison (< vs <=, && vs ||, == vs !=), a constant or literal (a status code, a name, a namespace, a layout string, a default), the ORDER of two existing statements or of two existing checks, which of two existing variables is used (src vs dst, the request path vs the cleaned path, the loop variable vs the outer one), an argument dropped or swapped, a normalisation applied one step too early or too late, a struct tag detail, a value passed by pointer vs copied. The best candidates are lines that the obvious tests execute all the time but whose result differs only for unusual inputs. ",
  "6": "Prefer changes whose effect shows only through a SEQUENCE of operations or a COMBINATION of two inputs that are each harmless alone, and changes in helper functions shared by several callers where only one caller's behaviour changes. ",
 }.get(N, "")
 for k in props:
